@@ -628,14 +628,15 @@ func runBlocks() {
 
 func main() {
 	defer out.Flush()
-	switch os.Getenv("C12_MODE") {
+	mode := os.Getenv("C12_MODE")
+	if gen.ReplayLines() != nil {
+		mode = "blocks" // corpus / replay files hold block scenarios only
+	}
+	switch mode {
 	case "blocks":
 		runBlocks()
 	default:
 		vfexec.Quiet()
-		if gen.ReplayLines() != nil {
-			return // corpus files hold block scenarios only
-		}
 		runPure()
 	}
 }
